@@ -11,7 +11,7 @@ BUDGET = {'quick': 150, 'thorough': 1800}
 CHUNK = 4
 RULE = ('Cases: a reference (1..4 contigs; contigs of length k-2/k/k+1; contigs without any window before, between and '
         'after contigs with repeats; N runs; lower-case stretches; repeats within and across contigs in both orientations) '
-        'and 1..3 samples (mutated copies with SNPs/indels, dropped/reordered/reverse-complemented contigs, duplicated '
+        'and 1..3 (sometimes 9..24) samples, mapped with --threads 1..4 (mutated copies with SNPs/indels, dropped/reordered/reverse-complemented contigs, duplicated '
         'content giving ambiguity codes; or an arbitrary subset of reference windows with present/absent runs of every '
         'length 0..2k).  The samples are built, the table is read back with nk, and every character of `ska map` '
         '[--ambig-mask] [--repeat-mask] is compared with the position-wise definition evaluated on that table.  '
@@ -21,7 +21,7 @@ ASSUMPTIONS = ['the sample dictionary is taken from the real .skf (nk --full-inf
                'position-wise definition as in DESIGN.md section 6 C04']
 KINDS = ['random', 'shortcontig', 'pattern', 'selfmap', 'lower', 'palin']
 REQUIRED = {t: ['kind:' + x for x in KINDS] + ['flags:am', 'flags:rm', 'flags:am+rm', 'flags:none', 'repeat_masked_positions',
-                                                'selfmap_exact', 'lowercase_ref_positions', 'ref_contig_without_kmers_before_repeat']
+                                                'selfmap_exact', 'lowercase_ref_positions', 'ref_contig_without_kmers_before_repeat', 'files_with_9+_samples']
             for t in ('quick', 'thorough')}
 FORCED_K = [5, 7, 9, 11, 15, 21, 31, 33, 41, 63]
 
@@ -167,7 +167,7 @@ def gen_samples(rng, ref, k, kind, rcmode):
                 recs = [G.rseq(rng, k)]
             samples.append(recs)
         return samples
-    for _ in range(rng.randint(1, 3)):
+    for _ in range(rng.randint(1, 3) if rng.random() < 0.85 else rng.randint(9, 24)):
         recs = []
         for c in ref:
             cu = c.upper()
@@ -302,7 +302,10 @@ def run_case(desc, ctx):
             return res
         ref, table, names = st['ref'], st['table'], st['names']
         exp, matched, masked = expected_map(ref, table, len(names), k, rcmode, desc['am'], desc['rm'])
-        m = ctx.sh(b, 'map', ctx.path('ref.fa'), ctx.path('o.skf'), *flags_of(desc))
+        th = ['--threads', [1, 1, 2, 3, 4][desc['seed'] % 5]]
+        if len(names) >= 9 and variant == 'rel':
+            res.count('files_with_9+_samples')
+        m = ctx.sh(b, 'map', ctx.path('ref.fa'), ctx.path('o.skf'), *flags_of(desc), *th)
         if variant == 'chk':
             res.count('chk_runs')
             if m.returncode != 0 and 'overflow' in m.stderr:
